@@ -101,6 +101,7 @@ impl Future for Gate {
         if g.tokens[id] > 0 {
             g.tokens[id] -= 1;
             g.at[id] = None;
+            ctl.notify.notify_one();
             return Poll::Ready(());
         }
         g.wakers[id] = Some(cx.waker().clone());
@@ -188,6 +189,12 @@ impl Ctl {
                 w.wake();
             }
         }
+        // the call has to pass the gate first (its task may not have been polled yet) ...
+        if !self.wait(|g| g.tokens[i] == 0 || g.done[i].is_some(), LONG).await {
+            self.inner.lock().unwrap().stuck = true;
+            return;
+        }
+        // ... then it reaches its next point, returns, or queues on the semaphore
         let moved = self
             .wait(|g| g.done[i].is_some() || g.arrivals[i] > arr0, if expect_block { SETTLE } else { LONG })
             .await;
@@ -212,17 +219,25 @@ impl Ctl {
                 handover = true;
             }
         }
+        // the permit goes to a queued call (the first one in the semaphore's queue; calls whose header
+        // is of another topic return at once and pass it on)
         while handover {
-            let next = self.inner.lock().unwrap().queue.pop_front();
-            let Some(j) = next else { break };
-            let ok = self.wait(|g| g.done[j].is_some() || g.at[j].is_some(), LONG).await;
+            if self.inner.lock().unwrap().queue.is_empty() {
+                break;
+            }
+            let ok = self
+                .wait(|g| g.queue.iter().any(|&j| g.done[j].is_some() || g.at[j].is_some()), LONG)
+                .await;
             let mut g = self.inner.lock().unwrap();
             if !ok {
                 g.stuck = true;
                 break;
             }
-            if g.done[j].is_none() {
-                g.holder = Some(j);
+            let arrived = g.queue.iter().copied().find(|&j| g.done[j].is_none() && g.at[j].is_some());
+            let returned: Vec<usize> = g.queue.iter().copied().filter(|&j| g.done[j].is_some()).collect();
+            g.queue.retain(|j| !returned.contains(j) && Some(*j) != arrived);
+            if arrived.is_some() {
+                g.holder = arrived;
                 break;
             }
         }
